@@ -7,6 +7,7 @@ package offline_signature
 
 //@ import "time"
 //@ import i2pd "github.com/go-i2p/common/data"
+//@ import "crypto/ed25519"
 
 //@ spec func max0(x int) int {
 //@   if x < 0 { return 0 }
@@ -49,6 +50,7 @@ package offline_signature
 //@   ensures @C08 fresh(b)
 //@   ensures @C01 @C02 len(b) == 6+len(o.transientPublicKey)+len(o.signature) && uint64(o.expires) == val(b[0:4]) && int(o.sigtype) == u16(b[4:6])
 //@   ensures @C01 @C02 seqeq(b[6:6+len(o.transientPublicKey)], o.transientPublicKey) && seqeq(b[6+len(o.transientPublicKey):], o.signature)
+//@   ensures @C02 seqeq(b[0:4], be32(o.expires)) && seqeq(b[4:6], be16(o.sigtype))
 //@   modifies nothing
 
 //@ contract (o *OfflineSignature) TransientPublicKey() (k []byte)
@@ -96,6 +98,25 @@ package offline_signature
 //@ contract (o *OfflineSignature) VerifySignature(destinationPublicKey []byte) (ok bool, err error)
 //@   ensures @C05 ok ==> err == nil && o != nil && sigvalid(destinationPublicKey, OffSignedData(o), o.signature)
 //@   modifies nothing
+
+// C06: what CreateOfflineSignature signs, VerifySignature accepts under the
+// public half of the same key; and the value survives the wire field by field
+// (every input of the verification - type, key, signed data, signature - is
+// the same after Bytes() + ReadOfflineSignature, so the verdict is the same;
+// the byte equality of the signature field itself is C01_ReadOfflineSignature).
+//@ option C06_OfflineSignThenVerify nocontract OfflineSignature.VerifySignature
+//@ lemma C06_OfflineSignThenVerify(expires uint32, tt uint16, tk []byte, priv ed25519.PrivateKey, dt uint16) {
+//@   assume(len(priv) == 64)
+//@   o, err := CreateOfflineSignature(expires, tt, tk, priv, dt)
+//@   if err == nil {
+//@     ok, e := o.VerifySignature(priv[32:])
+//@     assert(e == nil && ok)
+//@     o2, rem, e2 := ReadOfflineSignature(o.Bytes(), dt)
+//@     assert(e2 == nil && len(rem) == 0)
+//@     assert(o2.expires == o.expires && o2.sigtype == o.sigtype && o2.destinationSigType == o.destinationSigType)
+//@     assert(seqeq(o2.transientPublicKey, o.transientPublicKey))
+//@   }
+//@ }
 
 // must-fail canary: nothing was verified, so nothing is known to be valid
 //@ lemma T_mustfail_sig(o *OfflineSignature, k []byte) {
